@@ -135,3 +135,30 @@ pub fn names_oracle(adef: &Value, device_name: &str) -> Value {
     names.insert("device_pascal".into(), Value::String(device_pascal(device_name)));
     Value::Object(names)
 }
+
+#[cfg(test)]
+mod tests {
+    use super::*;
+    use serde_json::json;
+
+    #[test]
+    fn oracle_uses_configured_and_default_boundaries() {
+        let adef = json!({"config": {"name_word_boundaries": ["underscore"]}, "objects": [
+            {"kind": "register", "name": "my_reg2A", "fields": [
+                {"name": "fooBar", "conversion": {"enum": {"name": "e_n", "variants": [{"name": "v_1"}]}}}]},
+            {"kind": "ref", "name": "r_x", "target": "my_reg2A", "override": {"kind": "register"}}]});
+        let n = names_oracle(&adef, "my_dev2");
+        // Only `_` splits words when configured so…
+        assert_eq!(n["pascal"]["my_reg2A"], "MyReg2a");
+        assert_eq!(n["snake"]["fooBar"], "foobar");
+        assert_eq!(n["pascal"]["v_1"], "V1");
+        // …but the accessor name is re-split with the default boundaries.
+        assert_eq!(n["method"]["MyReg2a"], "my_reg_2_a");
+        assert_eq!(n["collision"]["my_reg_2_a"], "MyReg2A");
+        assert_eq!(n["collision"]["MyReg2a"], "MyReg2A");
+        assert_eq!(n["device_pascal"], "MyDev2");
+        for raw in ["my_reg2A", "fooBar", "e_n", "v_1", "r_x"] {
+            assert!(n["pascal"].get(raw).is_some() && n["snake"].get(raw).is_some(), "{raw}");
+        }
+    }
+}
